@@ -206,7 +206,7 @@ class C01(CoreCheck):
     pid = "C01"
     codes = [(100, 200), (1101, 1103), (1104, 1105), (1801, 1802)]
     profiles = ["fd", "mixed", "event", "task", "timer"]
-    coq_extra = ["theories/Core/CoreInv.vo", "theories/Core/CoreRel.vo"]
+    coq_extra = ["theories/Core/CoreRel.vo"]
     rule = ("seeded scenarios over all object kinds with several objects due in one iteration and handler scripts that unregister/free "
             "(struct reuse) self and other objects; non-trivial = some unregister or free action is executed inside a callback of an "
             "iteration with >= 2 callbacks; distinct = distinct scenario text")
